@@ -557,3 +557,102 @@ Proof.
   exists o, (a0 :: a1 :: l'0), k1, a1. split; [exact F|]. split; [now rewrite EK|]. split; [reflexivity|].
   cbn in L. injection L as _ L. congruence.
 Qed.
+
+(** ** the summary ("geomean") row, declaratively (Model/SummarySpec.v) *)
+From Perf Require Import Model.SummarySpec.
+From Perf Require Proofs.SummarySpec.
+
+(** for every table, row list and column: the model of summarizeCol shows a
+    geomean of the column's centres iff they are all positive (else "summaries
+    must be >0"); outside the first column a geomean of the per-row ratios
+    against the first column iff no ratio is uncomputable and all are positive,
+    "ratios must be >0" iff none is uncomputable and not all are positive,
+    neither when some ratio is uncomputable; the set warning iff the row sets
+    differ; and the geomeans are taken of exactly the rule's lists.  Only
+    assumption: GeoMean is NaN exactly on lists that are empty or hold a
+    non-positive (or NaN) value - where the real GeoMean departs from that
+    (C14_geomean_inf_order_refuted) the judge fails and the finding is recorded *)
+Theorem C14_summary_rule_model :
+  forall (centre geomean : list b64 -> b64),
+  (forall l, b64_is_nan (geomean l) = negb (all_pos l)) ->
+  forall cs c0 col rows is_base,
+    let cc := cc_of centre cs in
+    let m := col_summary centre geomean cs rows c0 is_base col in
+    let ru := summary_rule rows cc c0 is_base col in
+    cs_has_summary m = sr_has_summary ru
+    /\ negb (cs_has_summary m) = sr_warn_sum ru
+    /\ cs_summary m = geomean (sr_centres ru)
+    /\ cs_has_ratio m = sr_has_ratio ru
+    /\ (cs_has_ratio m = true -> cs_ratio m = geomean (sr_ratios ru))
+    /\ col_warn_ratio centre geomean cs rows c0 is_base col = sr_warn_ratio ru
+    /\ cs_warn_set m = sr_warn_set ru.
+Proof. exact Proofs.SummarySpec.summary_rule_model. Qed.
+Print Assumptions C14_summary_rule_model.
+
+(** a "?" ratio geomean without a ratios-warning only arises over a zero centre
+    in the first column, and then the first column carries "summaries must be >0":
+    whenever a geomean is missing, a "must be >0" warning is in the summary row *)
+Theorem C14_uncomputable_base_warned :
+  forall (centre : list b64 -> b64) cs c0 col rows,
+    let cc := cc_of centre cs in
+    existsb is_uncomputable (col_ratios rows cc c0 col) = true ->
+    sr_warn_sum (summary_rule rows cc c0 true c0) = true.
+Proof. exact Proofs.SummarySpec.uncomputable_base_warned. Qed.
+Print Assumptions C14_uncomputable_base_warned.
+
+(** the hypothesis of C14_summary_rule_model is satisfiable, and the rule on
+    cmd/benchstat/testdata/zero.txt's last two tables: 0/0 counts as ratio 1
+    (geomean of ratios shown, base and column both warned about their zero
+    centres); 100/0 is uncomputable ("?" without a ratios-warning) *)
+Definition ex_geomean (l : list b64) : b64 := if all_pos l then b64_one else S754_nan.
+Example C14_summary_rule_example :
+  (forall l, b64_is_nan (ex_geomean l) = negb (all_pos l)) /\
+  let z := b64_zero in let h := b64_of_Z 100 in
+  let cc_x (r c : N) := Some z in
+  let cc_y (r c : N) := if (c =? 0)%N then Some z else Some h in
+  let rx := summary_rule [0; 1]%N cc_x 0%N false 1%N in
+  let ry := summary_rule [0; 1]%N cc_y 0%N false 1%N in
+  (sr_has_summary rx, sr_warn_sum rx, sr_has_ratio rx, sr_warn_ratio rx, sr_ratios rx)
+    = (false, true, true, false, [b64_one; b64_one]) /\
+  (sr_has_summary ry, sr_warn_sum ry, sr_has_ratio ry, sr_warn_ratio ry, sr_warn_set ry)
+    = (true, false, false, false, false) /\
+  sr_warn_sum (summary_rule [0; 1]%N cc_y 0%N true 0%N) = true.
+Proof.
+  split.
+  - intros l. unfold ex_geomean. now destruct (all_pos l).
+  - vm_compute. repeat split.
+Qed.
+
+(** the delta of a cell and the strings that denote it *)
+Example C14_delta_rule_example :
+  let f := b64_of_Z in let a := b64_of_ZE 1%Z (-5)%Z in   (* alpha = 1/32 *)
+  delta_rule b64_one a (f 1%Z) (f 2%Z) = DTilde /\
+  delta_rule b64_zero a (f 3%Z) (f 3%Z) = DZero /\
+  delta_rule b64_zero a (f 0%Z) (f 3%Z) = DUnknown /\
+  delta_str_ok (bs "+100.00%") (delta_rule b64_zero a (f 1%Z) (f 2%Z)) = true /\
+  delta_str_ok (bs "-50.00%") (delta_rule b64_zero a (f 2%Z) (f 1%Z)) = true /\
+  delta_str_ok (bs "+100.00%") (delta_rule b64_zero a (f 2%Z) (f 1%Z)) = false /\
+  delta_str_ok (bs "-66.67%") (delta_rule b64_zero a (f 3%Z) (f 1%Z)) = true /\
+  delta_str_ok (bs "-66.66%") (delta_rule b64_zero a (f 3%Z) (f 1%Z)) = false /\
+  delta_str_ok (bs "+66.67%") (delta_rule b64_zero a (f 3%Z) (f 1%Z)) = false /\
+  delta_str_ok (bs "+Inf%") (delta_rule b64_zero a (f 1%Z) (S754_infinity false)) = true.
+Proof. vm_compute. repeat split. Qed.
+
+(** ** recorded deviation C14_geomean_inf_order (known_findings.json): go-moremath's
+    GeoMean is a running mean of logarithms; for ANY logarithm that maps +Inf
+    to +Inf there is an all-positive list - the rule shows its geomean, +Inf, and
+    no warning - on which that mean is NaN, so summarizeCol raises "summaries
+    must be >0 to compute geomean" instead *)
+Theorem C14_geomean_inf_order_refuted :
+  forall ln : b64 -> b64,
+    ln Proofs.SummarySpec.pinf = Proofs.SummarySpec.pinf -> b64_is_finite (ln b64_one) = true ->
+    exists l, all_pos l = true /\ b64_is_nan (Proofs.SummarySpec.running_log_mean ln l) = true.
+Proof. exact Proofs.SummarySpec.geomean_inf_order_refuted. Qed.
+Print Assumptions C14_geomean_inf_order_refuted.
+
+Example C14_geomean_inf_order_instance :
+  let ln (x : b64) := if b64_is_inf x then x else b64_zero in
+  ln Proofs.SummarySpec.pinf = Proofs.SummarySpec.pinf /\ b64_is_finite (ln b64_one) = true /\
+  b64_is_nan (Proofs.SummarySpec.running_log_mean ln [Proofs.SummarySpec.pinf; b64_one]) = true /\
+  b64_is_nan (Proofs.SummarySpec.running_log_mean ln [b64_one; Proofs.SummarySpec.pinf]) = false.
+Proof. vm_compute. repeat split. Qed.
